@@ -460,16 +460,24 @@ def inv_c07(st_):
         pubc = keypool.pgpy_key(keypool.ref_cert('ed25519-2', subkeys=(('cv25519-1', 0x0C),), secret=False))
         _ENC_SAMPLE.append(bytes(list(pubc.subkeys.values())[0].encrypt(pgpy.PGPMessage.new(b'x'))))
     out = []
+    # the twin derived at the previous step is kept alive on purpose (callers do hold on to key.pubkey) and is
+    # re-inspected first, before a new one is derived: whatever the last operation pushed into it shows here
+    for k, twin in list(getattr(st_, 'last_twin', {}).items()):
+        m = st_.models[k]
+        kids = [m.kid] + [s['kid'] for s in m.subs]
+        out += [('early-twin/' + c, d) for c, d in check_public_object(twin, kids, 'twin of key %d derived at the previous step' % k)]
+    st_.last_twin = {}
     for k, (key, m) in enumerate(zip(st_.keys, st_.models)):
         kids = [m.kid] + [s['kid'] for s in m.subs]
-        # fresh twin, taken in every lock state
-        out += check_public_object(key.pubkey, kids, 'fresh twin of key %d (locked)' % k if m.protected else 'fresh twin of key %d' % k, fresh_of=key)
         if m.protected:
             with key.unlock('pw-%s' % m.kid):
                 out += check_public_object(key.pubkey, kids, 'fresh twin of key %d taken while unlocked' % k, fresh_of=key)
+        # the last derivation of this step is the one that stays referenced until after the next operation
+        st_.last_twin[k] = key.pubkey
+        out += check_public_object(st_.last_twin[k], kids, 'fresh twin of key %d (locked)' % k if m.protected else 'fresh twin of key %d' % k, fresh_of=key)
         # a public key loaded from the export
         try:
-            loaded = pgpy.PGPKey.from_blob(bytes(key.pubkey))[0]
+            loaded = pgpy.PGPKey.from_blob(bytes(st_.last_twin[k]))[0]
             out += check_public_object(loaded, kids, 'public key %d loaded from its export' % k)
         except Exception as e:   # noqa
             out.append(('public-export-does-not-load/' + harness.exc_key(e), repr(e)))
